@@ -32,6 +32,8 @@ func main() {
 	r.Floor("scenario.with-truncate", 5)
 	r.Floor("scenario.with-mine", 5)
 	r.Floor("scenario.large-blocks", 3)
+	r.Floor("scenario.with-irreversible-window", 5)
+	r.Floor("crash.irreversible-height-checked", 100)
 	r.Floor("crash.resynced", 500)
 	r.Floor("crash.pool-nonempty", 50)
 	r.Assume("a single kvdb Put / Delete / Batch.Write is atomic and durable (what leveldb guarantees); torn writes inside one write are not modelled")
@@ -50,6 +52,11 @@ func scenario(r *ev.Run, sc int) {
 		o.MaxTxs = 2
 		o.KV = false
 		r.Count("scenario.large-blocks", 1)
+	}
+	if sc%5 == 2 {
+		// a non-zero irreversible window: the height is persisted with the pointer; walks below it are refused
+		o.Cfg.Window = 1 + rng.Intn(3)
+		r.Count("scenario.with-irreversible-window", 1)
 	}
 	var s *hist.SUT
 	defer func() {
@@ -115,7 +122,9 @@ func scenario(r *ev.Run, sc int) {
 		} else {
 			op = s.Step(rng, so)
 		}
-		if strings.HasPrefix(op.Result, "FAIL") {
+		if strings.HasPrefix(op.Result, "FAIL") && o.Cfg.Window > 0 && (op.Kind == "walk" || op.Kind == "receive" || op.Kind == "truncate") {
+			r.Count("op.refused-under-irreversible-window", 1) // finality may refuse a roll-back
+		} else if strings.HasPrefix(op.Result, "FAIL") {
 			r.Violation("legal-op-failed|"+op.Kind, "legal operation failed while recording the scenario: "+op.String()+" ops: "+strings.Join(s.OpLog(), " "),
 				map[string]interface{}{"scenario": sc, "ops": s.OpLog()})
 			return
@@ -186,6 +195,16 @@ func crashAt(r *ev.Run, s *hist.SUT, t *gen.Tree, k int) []hist.Problem {
 	if pool, _ := n.State.GetUnconfirmedTx(false); len(pool) > 0 {
 		r.Count("crash.pool-nonempty", 1)
 	}
+	if w := int64(t.Opts.Cfg.Window); w > 0 {
+		// the block the pointer names was applied: the persisted irreversible height is at least its
+		// height - w (no pruning walks here), the window is the configured one
+		meta := n.State.GetMeta()
+		r.Count("crash.irreversible-height-checked", 1)
+		if want := t.Blocks[c.Tip()].Height - w; meta.IrreversibleSlideWindow != w || (want > 0 && meta.IrreversibleBlockHeight < want && s.Stats["op.truncate"] == 0) {
+			return []hist.Problem{{Sig: "irreversible-height-behind-the-pointer", Detail: fmt.Sprintf("after the crash the state names block %d (height %d) but persisted irreversible height %d / window %d (configured window %d)",
+				c.Tip(), t.Blocks[c.Tip()].Height, meta.IrreversibleBlockHeight, meta.IrreversibleSlideWindow, w)}}
+		}
+	}
 	op := hist.Op{Kind: "crash"}
 	if ps := hist.CanonAuditor(c, op); len(ps) > 0 {
 		return ps
@@ -198,7 +217,10 @@ func crashAt(r *ev.Run, s *hist.SUT, t *gen.Tree, k int) []hist.Problem {
 	if lt < 0 {
 		return []hist.Problem{{Sig: "ledger-tip-unknown", Detail: "ledger tip is not an offered block"}}
 	}
-	if err := n.Walk(t.Blocks[lt].ID, false); err != nil {
+	if err := n.Walk(t.Blocks[lt].ID, false); err != nil && t.Opts.Cfg.Window > 0 {
+		r.Count("crash.resync-refused-under-irreversible-window", 1)
+		return nil
+	} else if err != nil {
 		return []hist.Problem{{Sig: "resync-failed", Detail: fmt.Sprintf("Walk(ledger tip=%d) after restart failed: %v %v", lt, err, n.Log.Tail(3))}}
 	}
 	r.Count("crash.resynced", 1)
